@@ -1347,10 +1347,6 @@ export class AllOfRuntype extends BaseRuntype {
   }
   validate(ctx: ValidateContext, input: unknown): boolean {
     for (const it of this.schemas) {
-      const isObj = typeof input === "object";
-      if (!isObj) {
-        return false;
-      }
       if (!it.validate(ctx, input)) {
         return false;
       }
@@ -1358,6 +1354,10 @@ export class AllOfRuntype extends BaseRuntype {
     return true;
   }
   parseAfterValidation(ctx: ParseContext, input: any): unknown {
+    if (typeof input !== "object" || input === null) {
+      // intersection of non-object types: every member accepted this very value
+      return input;
+    }
     let acc = {};
     for (const it of this.schemas) {
       const parsed = it.parseAfterValidation(ctx, input);
